@@ -26,7 +26,7 @@ from vf import Infra
 
 DER_ALL = ["strict", "strict_ht", "pad_r", "pad_s", "neg", "trail", "longlen", "seqlen", "badtag", "badinttag", "trunc", "zerolen", "empty"]
 INVS = ["TypeOK", "AcceptIffNoRule", "RangeExact", "KeyRuleUniform", "InvalidKeysRefused", "EitherOnlyLax", "SchnorrExact",
-        "TweakExact", "RecoverExact", "WrapAccepted", "TamperRefused"]
+        "TweakExact", "InfinityRefused", "RecoverExact", "WrapAccepted", "TamperRefused"]
 BUGS = [("le_n", "RecoverExact"), ("hybrid", "InvalidKeysRefused"), ("oddR", "SchnorrExact"), ("parity", "TweakExact"),
         ("tamper", "TamperRefused")]
 
@@ -139,6 +139,18 @@ def run(ctx):
     implied = record(ctx, f1, "replay", dict(seed=ctx.seed, ninst=inst_rows))
     ctx.log("replayed %d table rows x %d (%d cases, %d skipped as unconstructible): %d failures (%d implied by single-rule failures)" %
             (len(rows_run), inst_rows, s1["cases"], sum(s1["skipped"].values()), s1["fail"], implied))
+    # the small tables (BIP 340, BIP 341, recovery, parsers, low-S) again with more representatives per row
+    small_path = os.path.join(ctx.scratch, "rows-small.json")
+    small = [s for s in rows if '"tab":"ecdsa"' not in s]
+    open(small_path, "w").write("\n".join(small) + "\n")
+    inst_small = 6 if quick else 24
+    s1b, f1b = driver(ctx, binp, ["replay", "-in", small_path, "-seed", str(ctx.seed + 1000003), "-inst", str(inst_small), "-workers", str(ncpu)])
+    if s1b.get("infra"):
+        raise Infra("table replay (small tables): %s" % s1b["infra"][:3])
+    record(ctx, f1b, "replay", dict(seed=ctx.seed + 1000003, ninst=inst_small))
+    ctx.log("replayed %d rows of the small tables x %d: %d failures" % (len(small), inst_small, s1b["fail"]))
+    for k in total:
+        total[k] += s1b[k]
     s2, f2 = driver(ctx, binp, ["replay", "-in", sign_path, "-seed", str(ctx.seed), "-inst", str(inst_sign), "-workers", str(ncpu)])
     if s2.get("infra"):
         raise Infra("signer replay: %s" % s2["infra"][:3])
